@@ -1233,6 +1233,11 @@ ref("capture-read-bufreader", ["C11", "C08", "C02"], "the captured stdout is rea
                         match f.read_to_string(&mut s_out) {""", """                        let mut f = std::io::BufReader::new(File::from_raw_fd(fds.0));
                         match f.read_to_string(&mut s_out) {"""))
 
+mut("C19", "empty-parentheses-accepted", "R19-6|grammar|infix-agreement", "the grammar accepts `( )`",
+    ("src/calculator/grammar.pest", 'term = _{ num | "(" ~ expr ~ ")" }', 'term = _{ num | "(" ~ expr? ~ ")" }'))
+mut("C19", "trailing-operator-accepted", "R19-6|grammar|infix-agreement", "the grammar accepts `1 +`",
+    ("src/calculator/grammar.pest", "expr = { term ~ (operation ~ term)* }", "expr = { term ~ (operation ~ term?)* }"))
+
 # ------------------------------------------------------------------ more refactors
 ref("history-params-vec", ["C18"], "bind the INSERT parameters through a params! style slice",
     (H, "    match conn.execute(&sql, [line.trim(), info.as_str()]) {",
